@@ -167,6 +167,15 @@ def edge_cases(h, url):
         ('positional_extra', b'[false,null,null,1]'),
         ('positional_trailing_comma', b'[false,null,]'),
         ('top_null', b'null'), ('top_num', b'42'), ('top_str', b'"x"'), ('top_true', b'true'),
+        # the positional form follows the field schemas: a nested struct still scans its unknown members leniently,
+        # surplus elements are errors whatever they hold
+        ('pos_nested_lenient', b'[true,{"number":2,"hash":"' + H + b'","download_url":"' + U + b'","zz":"\\ud800","yy":["\xff",{"k":"\\udc00"}]}]'),
+        ('pos_nested_lenient_rb', b'[true,{"x":"\xff","number":2,"hash":"' + H + b'","download_url":"' + U + b'"},[1,2]]'),
+        ('pos_surplus_lenient', b'[false,null,null,"\\ud800"]'),
+        ('pos_patch_positional', b'[true,[2,"' + H + b'","' + U + b'",null]]'),
+        ('pos_patch_positional_lone', b'[true,[2,"' + H + b'","' + U + b'","\\ud800"]]'),
+        ('pos_rb_object', b'[true,{"number":2,"hash":"' + H + b'","download_url":"' + U + b'"},{"x":"\xff"}]'),
+        ('pos_empty', b'[]'),
         ('dup_unknown', b'{"x":1,"x":2,"patch_available":false}'),
         ('dup_known', b'{"patch_available":false,"patch_available":false}'),
         ('dup_known_after_garbage_type', b'{"patch_available":false,"patch_available":"\\ud800"}'),
